@@ -126,7 +126,11 @@ class Monitor:
         self.wstall = 0
         self.rstall = 0
         self.regs = model.init
-        self.events = set()  # coverage tags (not part of the state)
+        self.events = {}  # coverage tag -> number of transitions in which it occurred (not part of the state)
+
+    def _ev(self, tag):
+        e = self.events
+        e[tag] = e.get(tag, 0) + 1
 
     def snapshot(self):
         return (self.aw_hold, self.w_hold, self.ar_hold, self.aw_q, self.w_q, self.wr_pend, self.rd_pend,
@@ -158,7 +162,7 @@ class Monitor:
         post: same keys plus 'regs' (tuple in model.ports order) and 'notes' (tuple in model.notes order).
         Raises Violation."""
         m = self.m
-        ev = self.events
+        ev = self._ev
         if post["rvalid"] is None or post["bvalid"] is None:
             raise Violation("undefined", "", f"undefined valid output: bvalid={post['bvalid']} rvalid={post['rvalid']}")
         # ---- transfers at this edge
@@ -168,15 +172,15 @@ class Monitor:
         b_hs = pre["bvalid"] == 1 and bready == 1
         r_hs = pre["rvalid"] == 1 and rready == 1
         if self.aw_hold is not None and not aw_hs:
-            ev.add("aw-held-not-ready")
+            ev("aw-held-not-ready")
         if self.w_hold is not None and not w_hs:
-            ev.add("w-held-not-ready")
+            ev("w-held-not-ready")
         if self.ar_hold is not None and not ar_hs:
-            ev.add("ar-held-not-ready")
+            ev("ar-held-not-ready")
         if pre["bvalid"] == 1 and not b_hs:
-            ev.add("b-held-not-ready")
+            ev("b-held-not-ready")
         if pre["rvalid"] == 1 and not r_hs:
-            ev.add("r-held-not-ready")
+            ev("r-held-not-ready")
 
         # ---- read windows: every received, not yet responded read may sample the register in this cycle
         rd = list(self.rd_pend)
@@ -187,7 +191,7 @@ class Monitor:
             a = self.ar_hold
             rd.append((a, frozenset({self._cycle_value(a, hw)}), False, False))
             self.ar_hold = None
-            ev.add("read-mapped" if m.reg_of(a) is not None else "read-unmapped")
+            ev("read-mapped" if m.reg_of(a) is not None else "read-unmapped")
 
         # ---- write bookkeeping
         aw_q, w_q = self.aw_q, self.w_q
@@ -198,11 +202,11 @@ class Monitor:
             w_q = w_q + (self.w_hold,)
             self.w_hold = None
         if aw_hs and w_hs:
-            ev.add("aw-w-same-edge")
+            ev("aw-w-same-edge")
         elif aw_hs:
-            ev.add("aw-after-w" if self.w_q else "aw-first")
+            ev("aw-after-w" if self.w_q else "aw-first")
         elif w_hs:
-            ev.add("w-after-aw" if self.aw_q else "w-first")
+            ev("w-after-aw" if self.aw_q else "w-first")
         wr = list(self.wr_pend)
         while aw_q and w_q:
             wr.append((aw_q[0], w_q[0][0], w_q[0][1], False))
@@ -215,13 +219,13 @@ class Monitor:
             if not self.wr_pend:
                 raise Violation("b-without-request", "", "B transfer although no fully received write is unanswered")
             popped_write = wr.pop(0)
-            ev.add("b-transfer")
+            ev("b-transfer")
         popped_read = None
         if r_hs:
             if not self.rd_pend:
                 raise Violation("r-without-request", "", "R transfer although no received read is unanswered")
             popped_read = rd.pop(0)
-            ev.add("r-transfer")
+            ev("r-transfer")
 
         # ---- valid must not be withdrawn / payload must be stable
         if pre["bvalid"] == 1 and not b_hs:
@@ -353,21 +357,21 @@ class Monitor:
                     if cand == obs_regs and tuple(notes) == obs_notes:
                         # accept
                         if cand != self.regs:
-                            self.events.add("regs-changed")
+                            self._ev("regs-changed")
                         self.regs = cand
                         for idx, w in seq[:c]:
                             self._note_commit(w)
                             if idx >= 0:
                                 wr[idx] = (w[0], w[1], w[2], True)
                         for idx, ri, _ in fired:
-                            self.events.add("read-notified")
+                            self._ev("read-notified")
                             if idx >= 0:
                                 a, adm, resp, _n = rd[idx]
                                 rd[idx] = (a, adm, resp, True)
                         if open_slots:
-                            self.events.add("flag-set-clear-same-clock")
+                            self._ev("flag-set-clear-same-clock")
                         if clear_slots:
-                            self.events.add("hw-clear")
+                            self._ev("hw-clear")
                         return
                     nd = sum(1 for x, y in zip(cand + tuple(notes), obs_regs + obs_notes) if x != y)
                     if first_diff is None or nd < first_diff[2]:
@@ -394,12 +398,12 @@ class Monitor:
 
     def _note_commit(self, w):
         ri = self.m.reg_of(w[0])
-        ev = self.events
+        ev = self._ev
         if ri is None:
-            ev.add("write-unmapped")
+            ev("write-unmapped")
         else:
-            ev.add("write-mapped")
-            ev.add(f"write-strb-{w[2]:04b}")
+            ev("write-mapped")
+            ev(f"write-strb-{w[2]:04b}")
 
 
 def _hx(v):
